@@ -676,12 +676,14 @@ func handleInputStream(s *Session, handler Handler) (err error) {
 			Type:      stanza.Cancel,
 			Condition: stanza.ServiceUnavailable,
 		}.TokenReader()))
-		if err != nil {
+		// After a local Close there is nothing left to reply on: Serve goes on
+		// reading until the peer closes its stream as well.
+		if err != nil && !errors.Is(err, ErrOutputStreamClosed) {
 			return err
 		}
 	}
 
-	if err := w.Flush(); err != nil {
+	if err := w.Flush(); err != nil && !errors.Is(err, ErrOutputStreamClosed) {
 		return err
 	}
 
